@@ -77,6 +77,15 @@ CLAIMED.update({
     },
 })
 
+CLAIMED.update({
+    "C04": {
+        "technique": "TLA+ specification of the target dialect's lexical rules (SqlLex, standard and ClickHouse) and of pql's quoting functions checked by TLC for every short content; contents replayed at every literal/name position of real programs, real SQL lexed under both rule sets and compared with a plain-content baseline",
+        "text": "Design level: TLC shows for all contents over 17 symbols up to length 3/4 that quoteSQLString/quoteIdentifier output is exactly one token under both rule sets and decodes to the content (negative control: the pinned quoting without backslash escape must fail). Conformance: each content and 4,000/200,000 random contents are placed at 15 string and 16 name positions (table, column, qualified part, aliases, implicit alias, as, join key, sort key, render chart type / property name / property value, call argument, index key, in list, let value); the real SQL's token structure must equal that of the same program with a plain content and the content tokens must decode to the content; number spellings (decimal, hex, leading zeros/dot, exponent) must denote the same value.",
+        "note": "Target dialect = ClickHouse for decoding; structure invariance under standard rules too. The harness's SQL lexer is validated against SqlLex.tla on every enumerated text.",
+        "ref": "DESIGN.md 3.4, 4 (C04)",
+    },
+})
+
 NOT_YET = {}
 
 
